@@ -380,7 +380,8 @@ def load_findings():
 def finding_matches(entry, prop, clause, desc):
     if entry.get("status") == "fixed":
         return False
-    if entry["property"] != prop or entry["clause"] != clause:
+    ec = entry["clause"]
+    if entry["property"] != prop or (clause not in ec if isinstance(ec, list) else ec != clause):
         return False
     for k, want in entry.get("match", {}).items():
         have = desc.get(k)
